@@ -202,6 +202,12 @@ func getESDTNFTTokenOnSender(
 	if isNew {
 		return nil, ErrNewNFTDataOnSenderAddress
 	}
+	if nonce > 0 && esdtData.TokenMetaData == nil {
+		return nil, ErrNFTDoesNotHaveMetadata
+	}
+	if nonce == 0 && esdtData.TokenMetaData != nil {
+		return nil, ErrInvalidArguments
+	}
 
 	return esdtData, nil
 }
